@@ -22,8 +22,13 @@ ARGS = {1: ((1,), {}), 2: ((1.0,), {}), 3: ((True,), {}), 4: ((), {"x": 1}), 5: 
 
 
 class Val:
+    """what the cached function returns: tied to its invocation - and falsy (a cached falsy result is still a result)"""
+
     def __init__(self, n):
         self.n = n
+
+    def __bool__(self):
+        return False
 
 
 class Err(Exception):
